@@ -16,14 +16,16 @@
 (* workloads of n being down, unless the node comes back first.            *)
 (***************************************************************************)
 EXTENDS Integers, Sequences, FiniteSets, SequencesExt, TLC
-CONSTANTS Nodes, MaxOps, Focus     \* Focus: the watcher runs and each node has a workload from the start; only heartbeat / lapse / agent report follow
+\* Focus: "no" = everything; "on" = the watcher runs and each node has a workload from the start, only heartbeat / lapse /
+\* agent report follow; "off" = the same with the watcher not yet started (start, start-then-lapse are steps as well)
+CONSTANTS Nodes, MaxOps, Focus, ScanFirst
 VARIABLES alive, wls, watcher, pending, scanned, hist
 vars == <<alive, wls, watcher, pending, scanned, hist>>
 O(op, n) == [op |-> op, n |-> n]
 
-Init == IF Focus
-        THEN /\ alive = [n \in Nodes |-> TRUE] /\ wls = [n \in Nodes |-> <<"up">>] /\ watcher = "on" /\ pending = {} /\ scanned = {}
-             /\ hist = <<O("start", "")>> \o [i \in 1..Cardinality(Nodes) |-> O("addwl", SetToSeq(Nodes)[i])]
+Init == IF Focus # "no"
+        THEN /\ alive = [n \in Nodes |-> TRUE] /\ wls = [n \in Nodes |-> <<"up">>] /\ watcher = Focus /\ pending = {} /\ scanned = {}
+             /\ hist = (IF Focus = "on" THEN <<O("start", "")>> ELSE <<>>) \o [i \in 1..Cardinality(Nodes) |-> O("addwl", SetToSeq(Nodes)[i])]
         ELSE /\ alive = [n \in Nodes |-> TRUE] /\ wls = [n \in Nodes |-> <<>>] /\ watcher = "off"
              /\ pending = {} /\ scanned = {} /\ hist = <<>>
 AllDown(n) == \A i \in 1..Len(wls[n]) : wls[n][i] = "down"
@@ -40,15 +42,23 @@ Scan(n) == /\ watcher = "on" /\ n \notin scanned /\ scanned' = scanned \cup {n}
            /\ pending' = (IF alive[n] THEN pending ELSE pending \cup {n}) /\ UNCHANGED <<alive, wls, watcher>>
 Handle(n) == /\ watcher = "on" /\ n \in pending /\ pending' = pending \ {n}
              /\ wls' = [wls EXCEPT ![n] = [i \in 1..Len(@) |-> "down"]] /\ UNCHANGED <<alive, watcher, scanned>>
+\* the watcher becomes active, its initial scan has looked at the first node (ScanFirst: nodes are listed in name order) and
+\* then node n's status disappears, the rest of the scan still to come: Start . Scan(ScanFirst) . Lapse(n) as one step of
+\* the environment (the driver parks the scan there).  The watch is open from Start on, so the event is not lost.
+StartThenLapse(n) == /\ watcher = "off" /\ alive[n] /\ watcher' = "on" /\ scanned' = {ScanFirst}
+                     /\ alive' = [alive EXCEPT ![n] = FALSE]
+                     /\ pending' = pending \cup {n} \cup (IF alive[ScanFirst] THEN {} ELSE {ScanFirst})
+                     /\ UNCHANGED wls
 Wait == UNCHANGED <<alive, wls, watcher, pending, scanned>>
 
 Env == \/ \E n \in Nodes : \/ (Heartbeat(n) /\ hist' = Append(hist, O("hb", n)))
                            \/ (Lapse(n) /\ hist' = Append(hist, O("lapse", n)))
-                           \/ (~Focus /\ Lapse(n) /\ hist' = Append(hist, O("expire", n)))
-                           \/ (~Focus /\ NewWorkload(n) /\ hist' = Append(hist, O("addwl", n)))
+                           \/ (Focus = "no" /\ Lapse(n) /\ hist' = Append(hist, O("expire", n)))
+                           \/ (Focus = "no" /\ NewWorkload(n) /\ hist' = Append(hist, O("addwl", n)))
                            \/ (AgentReports(n) /\ hist' = Append(hist, O("report", n)))
-       \/ (~Focus /\ Start /\ hist' = Append(hist, O("start", "")))
-       \/ (~Focus /\ Wait /\ hist # <<>> /\ hist[Len(hist)].op # "wait" /\ hist' = Append(hist, O("wait", "")))
+       \/ (Focus # "on" /\ Start /\ hist' = Append(hist, O("start", "")))
+       \/ \E n \in Nodes : (Focus # "on" /\ StartThenLapse(n) /\ hist' = Append(hist, O("startlapse", n)))
+       \/ (Focus = "no" /\ Wait /\ hist # <<>> /\ hist[Len(hist)].op # "wait" /\ hist' = Append(hist, O("wait", "")))
 Sys == \E n \in Nodes : (Scan(n) \/ Handle(n)) /\ UNCHANGED hist
 Next == (Len(hist) < MaxOps /\ Env) \/ Sys
 Spec == Init /\ [][Next]_vars /\ WF_vars(Sys)
